@@ -279,8 +279,12 @@ class Server(base_server.BaseServer):
                         self._log_error_once(f'{e} {sid}', 'bad-sid')
                         r = self._bad_request(f'{e} {sid}')
                     else:
-                        if self.transport(sid) != transport and \
-                                transport != upgrade_header:
+                        if self.transport(sid) != transport and (
+                                transport != upgrade_header or
+                                'upgrade' not in [
+                                    c.strip() for c in environ.get(
+                                        'HTTP_CONNECTION', ''
+                                    ).lower().split(',')]):
                             self._log_error_once(
                                 f'Invalid transport for session {sid}',
                                 'bad-transport')
